@@ -634,10 +634,17 @@ class Interp:
         if hit:
             return c
         if len(alts) == 1:
+            # recorded as well: the decision log of a terminator must list EVERY decision, or a
+            # re-execution would hand a later decision's answer to this call
+            self._record(st, alts[0][0], alts[0][1])
             if alts[0][0]:
                 st.labels = st.labels + [alts[0][0]]
             return alts[0][1]
         raise Fork(alts)
+
+    def _record(self, st, label, value):
+        st.pending = list(getattr(st, 'pending', None) or []) + [(None, value)]
+        st.pend_i = len(st.pending)
 
     def branch_on(self, st, cond, label):
         """fork on a z3 condition, pruned by the solver; returns the python bool for this state"""
@@ -652,9 +659,11 @@ class Interp:
         if t and f:
             raise Fork([('%s' % label, True), ('not %s' % label, False)])
         if t:
+            self._record(st, None, True)
             st.cons = st.cons + [cond]
             return True
         if f:
+            self._record(st, None, False)
             st.cons = st.cons + [z3.Not(cond)]
             return False
         return None
